@@ -923,7 +923,7 @@ fn run_scenario(rt: &tokio::runtime::Runtime, ctl: &Arc<Ctl>, sc: &Scenario, set
 fn gen_scenario(r: &mut Rng, thorough: bool) -> Scenario {
     let n = r.range(2, if thorough { 6 } else { 5 }) as usize;
     let mut actors = vec![];
-    let mutators = [Bash, Bash, Shell, BashQuick, Write, Write, Patch, Unknown, CkptCreate, CkptRewind, Task, Task, TaskPty];
+    let mutators = [Bash, Bash, Shell, BashQuick, Write, Write, Patch, Unknown, CkptCreate, CkptRewind, Task, Task, Task];
     let readers = [Read, Ls, Grep, Fetch];
     for i in 0..n {
         let kind = if i == 0 || r.chance(7, 10) { *r.pick(&mutators) } else { *r.pick(&readers) };
@@ -945,7 +945,7 @@ fn corpus() -> Vec<Scenario> {
         // a task inside, a session tries; then the session inside, a task tries
         Scenario { actors: vec![a(Task, false), a(Bash, true), a(Task, false)], gos: vec![0, 0, 0, 1, 1, 0, 0, 1, 2, 2, 1, 1, 1, 1, 1, 2, 2, 2], seed: 3 },
         // checkpoint create / rewind against a shell alias and a pty task
-        Scenario { actors: vec![a(Shell, true), a(CkptCreate, true), a(CkptRewind, false), a(TaskPty, false)], gos: vec![0, 0, 0, 1, 1, 2, 2, 3, 3, 0, 0, 0, 0, 0], seed: 4 },
+        Scenario { actors: vec![a(Shell, true), a(CkptCreate, true), a(CkptRewind, false), a(Task, false)], gos: vec![0, 0, 0, 1, 1, 2, 2, 3, 3, 0, 0, 0, 0, 0], seed: 4 },
         // readers among themselves and an unknown tool
         Scenario { actors: vec![a(Grep, true), a(Ls, false), a(Fetch, true), a(Unknown, true), a(BashQuick, true)], gos: vec![3, 3, 0, 1, 2, 4, 4, 0, 1, 2, 3, 3, 3, 3, 3], seed: 5 },
     ]
